@@ -2,6 +2,7 @@ package main
 
 import (
 	"fmt"
+	"go/constant"
 	"go/token"
 	"go/types"
 	"sort"
@@ -45,12 +46,120 @@ func queryFlagLoads(fn *ssa.Function) map[string][]*ssa.If {
 		if !ok {
 			continue
 		}
-		o, f, _, ok := loadedField(atom)
-		if ok && o == "Query" && (f == "isFiltered" || f == "isBatch") {
+		if f := strategyFlag(atom); f != "" {
 			out[f] = append(out[f], b.Instrs[len(b.Instrs)-1].(*ssa.If))
 		}
 	}
 	return out
+}
+
+// strategyFlag: "isFiltered" / "isBatch" if v is a test of a query's iteration strategy: a load of the bool field of that
+// name, or a call of a bit-test accessor (`return x&C != 0`) on an integer field of Query whose bit C is the one set by
+// the constructor taking the pre-filtered table list (isFiltered) or the batch table list (isBatch).
+func strategyFlag(v ssa.Value) string {
+	if o, f, _, ok := loadedField(v); ok && o == "Query" && (f == "isFiltered" || f == "isBatch") {
+		return f
+	}
+	c := callOf(v)
+	if c == nil || len(c.Call.Args) != 1 {
+		return ""
+	}
+	acc := c.Common().StaticCallee()
+	bit, ok := bitTestAccessor(acc)
+	if !ok {
+		return ""
+	}
+	o, fld, _, ok := loadedField(c.Call.Args[0])
+	if !ok || o != "Query" {
+		return ""
+	}
+	batch, cached, ok := strategyBits(acc.Prog, fld)
+	if !ok {
+		return ""
+	}
+	switch {
+	case bit&batch != 0 && bit&cached == 0:
+		return "isBatch"
+	case bit&cached != 0 && bit&batch == 0:
+		return "isFiltered"
+	}
+	return ""
+}
+
+// bitTestAccessor: fn is `func (x T) name() bool { return x&C != 0 }` (or `== C`) for an integer type T; returns C.
+func bitTestAccessor(fn *ssa.Function) (int64, bool) {
+	if fn == nil || len(fn.Blocks) != 1 || len(fn.Params) != 1 {
+		return 0, false
+	}
+	ret, ok := fn.Blocks[0].Instrs[len(fn.Blocks[0].Instrs)-1].(*ssa.Return)
+	if !ok || len(ret.Results) != 1 {
+		return 0, false
+	}
+	cmp, ok := ret.Results[0].(*ssa.BinOp)
+	if !ok || (cmp.Op != token.NEQ && cmp.Op != token.EQL) {
+		return 0, false
+	}
+	and, ok := cmp.X.(*ssa.BinOp)
+	rhs, okc := cmp.Y.(*ssa.Const)
+	if !ok || !okc || and.Op != token.AND || rhs.Value == nil {
+		return 0, false
+	}
+	var cst *ssa.Const
+	if and.X == fn.Params[0] {
+		cst, _ = and.Y.(*ssa.Const)
+	} else if and.Y == fn.Params[0] {
+		cst, _ = and.X.(*ssa.Const)
+	}
+	if cst == nil || cst.Value == nil || cst.Value.Kind() != constant.Int || rhs.Value.Kind() != constant.Int {
+		return 0, false
+	}
+	if cmp.Op == token.NEQ && rhs.Int64() == 0 || cmp.Op == token.EQL && rhs.Int64() == cst.Int64() {
+		return cst.Int64(), true
+	}
+	return 0, false
+}
+
+// strategyBits: the constants stored into Query.<fld> by the constructor that takes a *batchArchetypes and by the one that
+// takes a []*archetype.
+func strategyBits(prog *ssa.Program, fld string) (batch, cached int64, ok bool) {
+	if theProg == nil {
+		return 0, 0, false
+	}
+	for _, fn := range theProg.Funcs {
+		if fn.Signature.Results().Len() != 1 || typeName(fn.Signature.Results().At(0).Type()) != "Query" {
+			continue
+		}
+		kind := ""
+		for _, pr := range fn.Params {
+			if typeName(pr.Type()) == "batchArchetypes" {
+				kind = "batch"
+			}
+			if sl, isS := pr.Type().Underlying().(*types.Slice); isS && typeName(sl.Elem()) == "archetype" {
+				kind = "cached"
+			}
+		}
+		if kind == "" {
+			continue
+		}
+		for _, b := range fn.Blocks {
+			for _, ins := range b.Instrs {
+				st, isSt := ins.(*ssa.Store)
+				if !isSt {
+					continue
+				}
+				if o, f, _, okf := loadedField(st.Addr); okf && o == "Query" && f == fld {
+					if c, isC := st.Val.(*ssa.Const); isC && c.Value != nil && c.Value.Kind() == constant.Int {
+						if kind == "batch" {
+							batch = c.Int64()
+						} else {
+							cached = c.Int64()
+						}
+					}
+				}
+			}
+		}
+	}
+	return batch, cached, batch != 0 && cached != 0 && batch&cached == 0
 }
 
 func c03r1(p *Prog, r *Reporter) {
@@ -95,8 +204,7 @@ func c03r2(p *Prog, r *Reporter) {
 			if !ok || !holds {
 				return false
 			}
-			o, f, _, ok := loadedField(atom)
-			return ok && o == "Query" && f == "isBatch"
+			return strategyFlag(atom) == "isBatch"
 		}}
 		mf.Run()
 		return mf
@@ -176,12 +284,21 @@ func c03r2(p *Prog, r *Reporter) {
 					continue
 				}
 				o, f, _, ok := loadedField(st.Addr)
-				if !ok || o != "Query" || f != "isBatch" {
+				if !ok || o != "Query" {
 					continue
 				}
-				cb, isC := constBool(st.Val)
-				if !isC || !cb {
-					continue
+				if f == "isBatch" {
+					cb, isC := constBool(st.Val)
+					if !isC || !cb {
+						continue
+					}
+				} else {
+					// the bit-flag form: a constant containing the batch bit stored into the strategy field
+					bb, _, okb := strategyBits(fn.Prog, f)
+					c, isC := st.Val.(*ssa.Const)
+					if !okb || !isC || c.Value == nil || c.Value.Kind() != constant.Int || c.Int64()&bb == 0 {
+						continue
+					}
 				}
 				// the same function stores a *batchArchetypes into nodeArchetypes
 				okc := false
